@@ -352,7 +352,7 @@ class ReadFifoQueueResponse(ModbusResponse):
         '''
         hi_byte = byte2int(buffer[2])
         lo_byte = byte2int(buffer[3])
-        return (hi_byte << 16) + lo_byte + 6
+        return (hi_byte << 8) + lo_byte + 6
 
     def __init__(self, values=None, **kwargs):
         ''' Initializes a new instance
